@@ -276,7 +276,7 @@ func auditKeyrings(r *mc.Run, signed []signedDoc, K1, K2 *key, entries []string)
 			// untampered, and with one byte of the signed text changed
 			ts, _, _ := gen.CSRegion(c.sd.bytes)
 			for _, f := range []*Fault{nil, {Op: "sub", Off: ts, Data: []byte{c.sd.bytes[ts] ^ 1}}} {
-				in := In{Case: "signed", Doc: c.sd.m.Name, Entry: c.e, SignerFpr: K1.fpr, Signer: "K1", Orig: c.sd.bytes, Fault: f, Want: c.sd.want}
+				in := In{Case: "signed", Doc: c.sd.m.Name, Entry: c.e, SignerFpr: K1.fpr, Signer: "K1", Orig: c.sd.bytes, Fault: f, Want: c.sd.want, WantErr: c.sd.m.WantErr}
 				c.rs.fill(&in)
 				res := check("audit-keyring-sizes", in)
 				st.Evals++
